@@ -386,7 +386,18 @@ def reactor_trace(enc_mod, seed, nbytes, keybits=1024, conn=None):
                     got += len(conn.file_object.read(m) if rng.random() < 0.6 else conn.socket.recv(m))
                 recvd += k
         stream_ok = peer_dec.decrypt(w.out[wire_from:]) == handed
-    ev = events_of(taps.all)
+        interrupted = seed % 3 == 0
+    ev = events_of(taps.all)            # (the trace judged by TLC ends here)
+    if stream_ok and not interrupted and seed % 2 == 0:
+        # one large write in a single call (a packet body of several KB), outside the part of the trace that TLC recomputes:
+        # the peer still decrypts exactly what was handed in
+        for size in (4081, 4082, 6000, 9000):
+            big = bytes(rng.getrandbits(8) for _ in range(size))
+            at = len(w.out)
+            conn.socket.send(big)
+            if peer_dec.decrypt(w.out[at:]) != big:
+                stream_ok = False
+                break
     if not stream_ok:
         queued_ok = False
     return {'secret': list(secret), 'key': list(key), 'login': True, 'urandom': [list(u) for u in taps.urandom], 'kl': kl,
